@@ -8,6 +8,7 @@ OutOfReach: the function is then not claimed as verified.
 """
 from __future__ import annotations
 import ast
+import re
 import copy
 from dataclasses import dataclass, field
 from typing import Any, Dict, List, Optional, Tuple
@@ -1140,8 +1141,9 @@ class Engine:
         else:
             if it["kind"] == "bytes":
                 st.pc.append(genv["_done"].t == it["seq"])
-            # keep ghost values visible to clauses evaluated after the loop (e.g. hints)
-            self._after_loop_env = genv
+            # user ghosts stay visible to clauses evaluated after the loop (enclosing iter_post, postcondition), as for while loops
+            for k in spec.get("ghost_init", {}):
+                st.env[k] = genv[k]
             st.ghost[f"L{ordn}_left_early"] = z3.IntVal(0)
             self.exec_block(s.orelse)
 
@@ -1181,6 +1183,12 @@ class Engine:
         if v.k == "tuple":
             items = list(v.t)
             return {"kind": "concrete", "items": items[::-1] if rev else items}
+        if v.k == "range":
+            lo, hi = v.t
+            n = z3.If(hi > lo, hi - lo, 0)
+            if rev:
+                return {"kind": "range", "len": n, "elem": lambda i: mk_int(hi - 1 - i)}
+            return {"kind": "range", "len": n, "elem": lambda i: mk_int(lo + i)}
         if v.k == "bytes":
             seq = v.t
             n = z3.Length(seq)
@@ -1195,6 +1203,8 @@ class Engine:
         if v.k == "opaque":
             n_ = z3.Int(fresh_name("n_items"))
             self.assume(n_ >= 0)
+            # the number of iterations is what len() reports for that (unchanged) container
+            self.assume(n_ == z3.Function("len_" + v.cls, opaque_sort(v.cls), z3.IntSort())(v.t))
             strs = v.cls == "StrList"
             return {"kind": "opaque", "len": n_,
                     "elem": (lambda i: V("str", z3.String(fresh_name("item")))) if strs else
@@ -1872,13 +1882,26 @@ class Engine:
                 return self.pyval(base.t[z3.simplify(idx.t).as_string()])
         if base.k == "obj" and self.reg.method_contract(base.cls, "__getitem__") is not None:
             return self.contract_call(self.reg.method_contract(base.cls, "__getitem__"), base, [idx], n)
+        if base.k in ("obj", "opaque") and ("sub:" + ast.unparse(n)) in self.c.externals and not self.spec_mode:
+            # a declared lookup on message-like data: a value of the declared sort (recorded in the ghost log when asked)
+            summ_ = self.c.externals["sub:" + ast.unparse(n)]
+            self.used_assumptions.append(f"lookup {ast.unparse(n)}: {summ_.get('doc', 'declared summary')}")
+            res_ = self.ext_result(summ_, "sub_" + re.sub(r"\W+", "_", ast.unparse(n)))
+            if summ_.get("record_as"):
+                self.st.calls.setdefault(summ_["record_as"], []).append({"result": res_})
+            return res_
         if base.k in ("obj", "opaque"):
             # block / variable lookup on message-like data: an opaque pure read (assumption recorded)
             self.used_assumptions.append("subscript lookups on message/block data are pure reads that do not raise")
             if not self.spec_mode:
                 self.st.calls.setdefault("getitem:" + ast.unparse(n.value), []).append({})
-            fn_ = z3.Function("lookup_" + (base.cls or "Any"), *( [opaque_sort(base.cls)] if base.k == "opaque" else []), z3.IntSort(), opaque_sort("Any"))
-            key = z3.Int(fresh_name("key"))
+            if base.k == "opaque" and idx.k in ("int", "str"):
+                ks_ = z3.simplify(idx.t)
+                if z3.is_int_value(ks_) or z3.is_string_value(ks_):
+                    # the same constant key on the same (unchanged) container reads the same item
+                    fn_ = z3.Function("lookup_" + (base.cls or "Any") + ("_i" if idx.k == "int" else "_s"), opaque_sort(base.cls),
+                                      z3.IntSort() if idx.k == "int" else z3.StringSort(), opaque_sort("Any"))
+                    return V("opaque", fn_(base.t, ks_), "Any")
             return V("opaque", z3.Const(fresh_name("item"), opaque_sort("Any")), "Any")
         raise OutOfReach(f"{self.c.key}: subscript of {base.k}")
 
@@ -1929,6 +1952,12 @@ class Engine:
             except OutOfReach:
                 key = NONE
             self.st.calls.setdefault("store:" + ast.unparse(t.value), []).append({"key": key, "value": v})
+            if base.k == "opaque" and isinstance(t.value, (ast.Name, ast.Attribute)):
+                # the container is a different value after the store (its len(), its lookups): nothing about it carries over
+                try:
+                    self.store_back(t.value, V("opaque", z3.Const(fresh_name("stored_" + (base.cls or "Any")), opaque_sort(base.cls)), base.cls))
+                except OutOfReach:
+                    pass
             return
         raise OutOfReach(f"{self.c.key}: subscript store on {base.k}")
 
@@ -2205,6 +2234,10 @@ class Engine:
         return ret
 
     def builtin_call(self, nm, n) -> Optional[V]:
+        if nm == "range" and 1 <= len(n.args) <= 2 and not n.keywords:
+            # a range object kept in a variable: only iteration over it is modelled
+            a_ = [self.as_int(self.ev(x)) for x in n.args]
+            return V("range", (z3.IntVal(0), a_[0]) if len(a_) == 1 else (a_[0], a_[1]))
         if nm == "len":
             v = self.ev(n.args[0])
             if v.k == "opt" and self.spec_mode:
@@ -2825,8 +2858,14 @@ class Engine:
             r_ = self.ext_result(summ, d)
             cache[d] = r_
             return r_
+        if summ.get("uses_recv") and recv is None and isinstance(n.func, ast.Attribute):
+            recv = self.ev(n.func.value)        # the receiver the summary's clauses talk about
         if summ.get("record_as"):
-            self.st.calls.setdefault(summ["record_as"], []).append({f"arg{i}": a for i, a in enumerate(args)})
+            rec_ = {f"arg{i}": a for i, a in enumerate(args)}
+            rec_.update(kwvals)                 # keyword arguments by their own names
+            if recv is not None:
+                rec_["recv"] = recv
+            self.st.calls.setdefault(summ["record_as"], []).append(rec_)
         mr = summ.get("may_raise")
         if mr and n is self._merge_raise_stmt:
             mr = None       # swallowed by the enclosing effect-free catch-all: same continuation either way
@@ -2837,6 +2876,8 @@ class Engine:
             w = self.choose(lab, ["ok"] + excs)
             if w > 0 and summ.get("raise_only_if"):
                 envr = {f"arg{i}": a for i, a in enumerate(args)}
+                if recv is not None:
+                    envr["recv"] = recv
                 self.assume(self.clause_bool(summ["raise_only_if"], self.st, self.st, envr))
                 if self.quick_prune and not self._feasible():
                     raise PathAbort()
@@ -2863,6 +2904,8 @@ class Engine:
                 env[f"arg{i}"] = a
             for k_, v_ in kwvals.items():
                 env[f"kw_{k_}"] = v_
+            if recv is not None:
+                env["recv"] = recv
             for p in ([post] if isinstance(post, str) else post):
                 self.assume(self.clause_bool(p, self.st, self.st, env))
         return res
